@@ -123,6 +123,11 @@ func (ps *pushSim) RoundTrip(req *http.Request) (*http.Response, error) {
 		v := r.M.Pull(ps.sub, 1<<30, []RecvMsg{rm}, now.Add(-time.Millisecond), now)
 		if v != nil {
 			v.Oracle = "push:" + v.Oracle
+			if v.Prop == "C03" || v.Prop == "C04" {
+				// on a push subscription the ack is the success response and the retry is the
+				// next POST: "never pushed again" / "pushed again after the backoff" are C19
+				v.Prop = "C19"
+			}
 			return v
 		}
 		if e := r.M.AckIDs[rm.AckID]; e != nil && ps.stalled && ps.sub.Cfg.fullDL() && e.State == stOut && e.Seen >= int(ps.sub.Cfg.MaxAttempts) {
@@ -230,7 +235,10 @@ var pushStatuses = []int{200, 201, 202, 204, 102, 203, 205, 206, 226, 299, 100, 
 func runPush(t *testing.T, tape *Tape, w *World, variant string, steps int, out *runOutcome) {
 	r := newSetupRun(tape, w, "push")
 	out.stats = r.Stats
-	defer func() { out.trace, out.probes, out.hashes = r.Trace, r.M.Probes, r.Hashes; out.sample = sampleOf(r.Trace) }()
+	defer func() {
+		out.trace, out.probes, out.hashes = r.Trace, r.M.Probes, r.Hashes
+		out.sample = sampleOf(r.Trace)
+	}()
 	if services.VerifHTTPPusher == nil {
 		panic("HARNESS: push overlay not available")
 	}
